@@ -133,6 +133,108 @@ def fam_taint_ring(n):
     return {"files": {"main.py": "\n".join(src) + "\n"}, "settings": TAINT_SETTINGS}
 
 
+# degenerate callees: frames that init_compute_frame may refuse (empty CFG / no state space) or that have
+# nothing to analyse.  A parameterless function whose body is only a docstring or `...` has an EMPTY CFG:
+# its frame is dropped at initialisation — the driver must not schedule it again for the same interruption.
+DEGENERATE_DEFS = """def stub():
+    \"\"\"only a docstring\"\"\"
+
+
+def dots():
+    ...
+
+
+def passer():
+    pass
+
+
+def stub_p(a):
+    \"\"\"docstring, one parameter\"\"\"
+
+
+def dots_p(a, b):
+    ...
+
+
+def onlydefs():
+    def inner():
+        return 1
+
+
+class Empty:
+    pass
+
+
+class EmptyDoc:
+    \"\"\"doc\"\"\"
+
+
+class Holder:
+    def spin(self):
+        while True:
+            pass
+
+    def nothing(self):
+        \"\"\"doc\"\"\"
+
+    def dots(self):
+        ...
+
+
+def never():
+    while True:
+        pass
+
+
+lam = lambda: 0
+lam_p = lambda v: v
+"""
+DEGENERATE_CALLS = ["stub()", "dots()", "passer()", "stub_p(1)", "dots_p(1, 2)", "onlydefs()", "Empty()", "EmptyDoc()",
+                    "never()", "lam()", "lam_p(3)", "hold.nothing()", "hold.dots()", "hold.spin()", "nogir.missing()",
+                    "blank.missing(1)"]
+DEGENERATE_MODULES = {"nogir.py": "# this file has no statement at all\n# only comments\n", "blank.py": ""}
+
+
+def fam_degenerate_callees(n):
+    """every degenerate callee shape called n times from top level (straight line), then once more inside a loop"""
+    src = ["import nogir", "import blank", "", DEGENERATE_DEFS, "hold = Holder()"]
+    k = 0
+    for rep in range(n):
+        for c in DEGENERATE_CALLS:
+            src.append(f"r{k} = {c}")
+            k += 1
+    src += ["i = 0", "while i < 3:"]
+    for c in DEGENERATE_CALLS:
+        src.append(f"    q{k} = {c}")
+        k += 1
+    src += ["    i = i + 1", "print(r0, i)"]
+    files = dict(DEGENERATE_MODULES)
+    files["main.py"] = "\n".join(src) + "\n"
+    return {"files": files}
+
+
+def fam_degenerate_chain(n):
+    """a call chain of depth n; every link calls two degenerate callees (one of them inside a loop on odd links)
+    before descending; the last link calls all of them"""
+    src = ["import nogir", "import blank", "", DEGENERATE_DEFS, "hold = Holder()", ""]
+    m = len(DEGENERATE_CALLS)
+    for i in range(n):
+        a, b = DEGENERATE_CALLS[(2 * i) % m], DEGENERATE_CALLS[(2 * i + 1) % m]
+        src += [f"def g{i}(x):", f"    u = {a}"]
+        if i % 2:
+            src += ["    k = 0", "    while k < 2:", f"        v = {b}", "        k = k + 1"]
+        else:
+            src += [f"    v = {b}"]
+        src += [f"    w = g{i+1}(x)", "    return w", ""]
+    src += [f"def g{n}(x):"]
+    for j, c in enumerate(DEGENERATE_CALLS):
+        src.append(f"    z{j} = {c}")
+    src += ["    return x", "", "r = g0(1)", "print(r)"]
+    files = dict(DEGENERATE_MODULES)
+    files["main.py"] = "\n".join(src) + "\n"
+    return {"files": files}
+
+
 def fam_random_calls(n, seed=0):
     """n functions, each with 1-3 calls to uniformly chosen functions (itself and earlier ones included:
     recursion, mutual recursion, diamonds), some inside a loop or a branch; seeded by VERIF_SEED"""
@@ -165,6 +267,7 @@ FAMILIES = {
     "cyclic_objects": fam_cyclic_objects, "nested_loops": fam_nested_loops,
     "call_chain3": fam_call_chain3, "call_chain4": fam_call_chain4, "taint_ring": fam_taint_ring,
     "random_calls": fam_random_calls,
+    "degenerate_callees": fam_degenerate_callees, "degenerate_chain": fam_degenerate_chain,
 }
 
 # hostile literal constants: fixed members (n scales the literal where that makes sense)
